@@ -13,6 +13,7 @@ import (
 	"encoding/json"
 	"fmt"
 	"math/big"
+	"sort"
 	"strings"
 	"unicode/utf8"
 
@@ -598,6 +599,104 @@ func sweepNonASCII(c *vh.Ctx) {
 	}
 }
 
+// ---- insertions / deletions / concatenations around the structural parts --------------
+func addrVariants(r *vh.Rand, addr string) map[string][]string {
+	body := addr[3:]
+	return map[string][]string{
+		"junk-before":   {"x" + addr, " " + addr, "mixin:" + addr, "\x00" + addr, "\t" + addr, "\n" + addr, "1" + addr, "X" + addr},
+		"doubled":       {"XIN" + addr, addr + addr, addr + body, "XINXIN" + addr},
+		"prefix-case":   {"xin" + body, "Xin" + body, "xIN" + body, "XIn" + body, "XiN" + body},
+		"prefix-split":  {"XI N" + body, "X IN" + body, "XI1N" + body, "X\x00IN" + body, "XIN " + body, "XIN\x00" + body},
+		"junk-after":    {addr + "1", addr + " ", addr + "\n", addr + "XIN", addr + "\x00", addr + "\t", addr + "\r\n", addr + "x"},
+		"prefix-later":  {"abcXIN" + body, "1XIN" + body, body[:5] + "XIN" + body, "abc" + addr, " XIN" + body, "XI" + addr},
+		"prefix-delete": {"IN" + body, "XN" + body, "XI" + body, "N" + body, "X" + body},
+		"empty-body":    {"XIN", "XIN ", " XIN", "", " ", "\x00"},
+		"body-only":     {body, " " + body, body + " "},
+		"whitespace":    {" " + addr + " ", "\t" + addr + "\t", "\x00" + addr + "\x00", addr[:3] + " " + body, addr[:40] + " " + addr[40:], addr[:40] + "\x00" + addr[40:]},
+	}
+}
+
+func textVariants(h string) map[string][]string {
+	return map[string][]string{
+		"junk-before": {"x" + h, " " + h, "0x" + h, "\x00" + h, "0" + h, "00" + h},
+		"junk-after":  {h + "0", h + " ", h + "\n", h + "\x00", h + "00", h + "x"},
+		"doubled":     {h + h, h[:2] + h},
+		"whitespace":  {" " + h + " ", h[:10] + " " + h[10:], h[:10] + "\x00" + h[10:], "\t" + h},
+		"empty":       {"", " ", "\x00"},
+	}
+}
+
+func jsonVariants(h string) map[string][]string {
+	q := `"` + h + `"`
+	return map[string][]string{
+		"junk-before-quote": {"x" + q, " " + q, "\x00" + q, `"` + q, "[" + q},
+		"junk-after-quote":  {q + "x", q + " ", q + "\n", q + `"`, q + "\x00", q + q},
+		"junk-inside":       {`"x` + h + `"`, `" ` + h + `"`, `"` + h + ` "`, `"` + h + `0"`, `"0x` + h + `"`, `"` + h + h + `"`, `"\x00` + h + `"`, `"` + h + `\x00"`},
+		"quote-missing":     {h, `"` + h, h + `"`, `""`, `"`, ``, `" "`},
+	}
+}
+
+func sortedKeys(m map[string][]string) []string {
+	ks := make([]string, 0, len(m))
+	for k := range m {
+		ks = append(ks, k)
+	}
+	sort.Strings(ks)
+	return ks
+}
+
+func runVariants(c *vh.Ctx, mk func(kind, s string) Case, m map[string][]string) {
+	for _, k := range sortedKeys(m) {
+		for _, v := range m[k] {
+			run(c, mk("struct/"+k, v))
+		}
+	}
+}
+
+// one address and one text per type: all structural variants, and the insertion and
+// deletion of one character at every position
+func sweepStructural(c *vh.Ctx, r *vh.Rand, everyPosition bool) {
+	sp, vw := validKey(r, r.Chance(1, 4)), validKey(r, false)
+	addr := common.Address{PublicSpendKey: sp, PublicViewKey: vw}.String()
+	mkA := func(kind, s string) Case { return Case{Op: "addrparse", Kind: kind, In: hx([]byte(s))} }
+	runVariants(c, mkA, addrVariants(r, addr))
+	if everyPosition {
+		for pos := 0; pos <= len(addr); pos++ {
+			ins := []byte{alphabet58[r.Intn(58)], '1', addr[min(pos, len(addr)-1)]}[r.Intn(3)]
+			run(c, mkA("struct/insert", addr[:pos]+string(ins)+addr[pos:]))
+			if pos < len(addr) {
+				run(c, mkA("struct/delete", addr[:pos]+addr[pos+1:]))
+			}
+		}
+	}
+	for _, typ := range []string{"key", "hash", "sig", "cosi"} {
+		h := hx(r.Bytes(sizeOf(typ)))
+		mkJ := func(kind, s string) Case { return Case{Op: "parsejson", Kind: kind, Typ: typ, In: hx([]byte(s))} }
+		runVariants(c, mkJ, jsonVariants(h))
+		if typ == "key" || typ == "hash" {
+			mkT := func(kind, s string) Case { return Case{Op: "parse", Kind: kind, Typ: typ, In: hx([]byte(s))} }
+			runVariants(c, mkT, textVariants(h))
+			if everyPosition {
+				for pos := 0; pos <= len(h); pos += 1 {
+					run(c, mkT("struct/insert", h[:pos]+string("0123456789abcdefABCDEF"[r.Intn(22)])+h[pos:]))
+					if pos < len(h) {
+						run(c, mkT("struct/delete", h[:pos]+h[pos+1:]))
+					}
+				}
+			}
+		}
+		if everyPosition {
+			for i := 0; i < 16; i++ {
+				pos := r.Intn(len(h) + 1)
+				run(c, mkJ("struct/insert", `"`+h[:pos]+string("0123456789abcdef\" "[r.Intn(18)])+h[pos:]+`"`))
+				if pos < len(h) {
+					run(c, mkJ("struct/delete", `"`+h[:pos]+h[pos+1:]+`"`))
+				}
+			}
+		}
+	}
+}
+
 func genB58(c *vh.Ctx) {
 	r := c.Rng
 	switch r.Intn(9) {
@@ -857,7 +956,7 @@ func main() {
 		"2^64, through DeriveGhostPublicKey/DeriveGhostPrivateKey/ViewGhostOutputKey; base58: random byte strings (leading zeros, lengths across the 10-digit " +
 		"chunks, numbers at 58^10k±2), texts over the alphabet with leading/inner '1's, texts with one foreign character, random bytes; addresses: printed " +
 		"addresses of random valid keys (1/12 with a leading zero byte) and their single-character substitutions, foreign characters, insertions/deletions, " +
-		"extra '1', prefix variants, case flips, one character replaced by a non-ASCII rune (U+0080..FF, runes >= U+0100 whose low byte is the original / another alphabet / a foreign byte, astral) or invalid UTF-8 at every position of a printed address, a base58 text and hexadecimal texts, wrong checksum, correct checksum over invalid points / wrong lengths; key/hash/signature/collective " +
+		"extra '1', prefix variants, case flips, one character replaced by a non-ASCII rune (U+0080..FF, runes >= U+0100 whose low byte is the original / another alphabet / a foreign byte, astral) or invalid UTF-8 at every position of a printed address, structural edits (junk before the prefix / after the end, doubled prefix or text, prefix case, split, deleted, later in the text, empty body, body only, whitespace and NUL, insertion and deletion of one character at every position; the same around hexadecimal texts and their JSON quotes), a base58 text and hexadecimal texts, wrong checksum, correct checksum over invalid points / wrong lengths; key/hash/signature/collective " +
 		"signature: random values printed, hexadecimal texts (lower/upper/mixed case, wrong length, bad character) in plain and JSON form (double, back, single " +
 		"quotes, bare, unterminated, trailing byte, escape, carriage return). Non-trivial = the input reaches the codec core (valid alphabet / 68-byte payload / " +
 		"accepted text / derivation on valid keys); distinct by input."
@@ -869,8 +968,10 @@ func main() {
 		return
 	}
 	corpus(c)
+	sweepStructural(c, vh.NewRand(32, "C32-corpus-structural"), false) // fixed stream: part of the corpus
 	for i := c.Scale(1, 20); i > 0; i-- {
 		sweepNonASCII(c)
+		sweepStructural(c, c.Rng, true)
 	}
 	n := c.Scale(350, 12000)
 	for i := 0; i < n; i++ {
